@@ -65,24 +65,24 @@ def gates(ctx, r, F):
         idx = 0
         mode = rec["mode"]
         if req == "None":
-            if not lt or lt[0][:2] != ("Eq", KE):
-                bad.append("auto-detect does not test len == LEN_IN_STR_EXCEPT_PREFIX first")
-                continue
-            if lt[0][2]:
-                mode = "Empty"
-                idx = 1
-            else:
-                if len(lt) < 2 or lt[1][:2] != ("Eq", KW):
-                    bad.append("auto-detect does not test len == LEN_IN_STR second")
-                    continue
-                if lt[1][2]:
-                    mode = "WithVersion"
-                    idx = 2
-                else:
+            # auto-detection: equality tests of the length against the two valid lengths, in either order
+            mode = None
+            seen_false = set()
+            while idx < len(lt) and lt[idx][0] == "Eq" and lt[idx][1] in (KE, KW):
+                k_, truth_ = lt[idx][1], lt[idx][2]
+                idx += 1
+                if truth_:
+                    mode = "Empty" if k_ == KE else "WithVersion"
+                    break
+                seen_false.add(k_)
+            if mode is None:
+                if seen_false == {KE, KW}:
                     if ret != PE("InvalidStringLength") or rec["events"] or rec["prefix_test"]:
                         bad.append("auto-detect with neither length returns %s" % sym.fmt(ret)[:60])
                     kinds.add("InvalidStringLength")
-                    continue
+                else:
+                    bad.append("auto-detect does not decide the mode from len == LEN_IN_STR_EXCEPT_PREFIX / len == LEN_IN_STR (tests %s)" % [(t[0], sym.fmt(t[1]), t[2]) for t in lt[:3]])
+                continue
         elif req not in ("Some(Empty)", "Some(WithVersion)"):
             bad.append("unrecognised prefix request %s" % req)
             continue
